@@ -17,9 +17,11 @@
     backwards along the next edge).
     Hypotheses (`ClipHyp`): `sqrt x ≥ 0`, `sqrt x · sqrt x = x` for `x ≥ 0`; the intersection routine
     is `Line::intersection` with determinant guard `eps ≥ 0` (exact, no f64 round trip);
-    `line_width > 2·eps` (below that the guard fires and lyon falls back to the UNSCALED normal, see
-    `conf/C05.json`); `miter_limit ≥ 1` (for a smaller limit the clip line cuts the side line AHEAD of
-    the join and `flattened_step` does skip: observed on the real tessellator); merge threshold `> 0`.
+    `line_width ≥ 0` (for a negative width the picture is point-reflected and the clipped point lies
+    ahead); `miter_limit ≥ 1` (for a smaller limit the clip line cuts the side line AHEAD of the join
+    and `flattened_step` does skip: observed on the real tessellator); merge threshold `> 0`.
+    When the guard fires (`clip_fallback`) the side point stays where it is since /repo fix ede203df
+    (before it lyon fell back to the UNSCALED normal and the theorem needed `line_width > 2·eps`).
 -/
 import LyonVerif.Lemmas.StrokeIdxClipRun
 import LyonVerif.Lemmas.StrokeIdxField
@@ -273,6 +275,20 @@ theorem clip_core (eps : K) (heps : 0 ≤ eps) (a N nt : P K) (m k : K)
   rw [hpx, hpy] at hXN
   linear_combination hXN
 
+/-- `get_clip_intersections`, second point, when `Line::intersection` answers `None` (determinant
+within the guard): the side point stays where it is (/repo fix ede203df) -/
+theorem clip_fallback (eps : K) (a N nt : P K) (m k : K)
+    (hdet : |m * (N.x * nt.x + N.y * nt.y)| ≤ eps) :
+    (clipIntersections (lineIntersection eps) a ⟨-(m * nt.y), m * nt.x⟩ N k).2 = ⟨-(m * nt.y), m * nt.x⟩ := by
+  have hc : (perp N).cross (perp (⟨-(m * nt.y), m * nt.x⟩ : P K)) = m * (N.x * nt.x + N.y * nt.y) := by
+    simp only [perp, geom]; ring
+  have hguard : Scalar.abs ((perp N).cross (perp (⟨-(m * nt.y), m * nt.x⟩ : P K))) ≤ eps := by
+    rw [hc]; exact hdet
+  unfold clipIntersections lineIntersection
+  simp only []
+  rw [if_pos hguard]
+  rfl
+
 /-- `compute_normal` of two unit tangents whose miter exceeds a limit `≥ 1`: the miter normal is
 `perp(nt) + τ·nt` with `τ² > 3`, and `τ` has the sign of the turn `pt × nt` (the OUTER miter leans
 backwards along the next edge) -/
@@ -328,7 +344,7 @@ along the next edge: `front.next − join = b + lam·nt`, `lam ≤ 0`, where `b 
 unclipped offset (`sg = −1`: the front side is the negative one, left turn; `sg = 1`: positive) -/
 theorem clip_behind (hs0 : ∀ x : K, 0 ≤ x → 0 ≤ Transc.sqrt x)
     (hs : ∀ x : K, 0 ≤ x → Transc.sqrt x * Transc.sqrt x = x)
-    (eps hw ml : K) (heps : 0 ≤ eps) (hhw : eps < hw) (hml : 1 ≤ ml)
+    (eps hw ml : K) (heps : 0 ≤ eps) (hhw : 0 ≤ hw) (hml : 1 ≤ ml)
     (pt nt : P K) (hpt : pt.sqLen = 1) (hnt : nt.sqLen = 1) (a : P K) (sg : K)
     (hsg : (sg = -1 ∧ pt.cross nt ≥ 0) ∨ (sg = 1 ∧ pt.cross nt < 0))
     (hex : (computeNormal pt nt).sqLen > ml * ml * 4) :
@@ -338,7 +354,20 @@ theorem clip_behind (hs0 : ∀ x : K, 0 ≤ x → 0 ≤ Transc.sqrt x)
         = ⟨-(sg * hw * nt.y) + lam * nt.x, sg * hw * nt.x + lam * nt.y⟩ := by
   obtain ⟨tau, hn, h3, hsq, hp, hq⟩ := normal_tau hs0 hs ml hml pt nt hpt hnt hex
   have hunit : nt.x * nt.x + nt.y * nt.y = 1 := by simpa only [geom] using hnt
-  have hhw0 : 0 < hw := lt_of_le_of_lt heps hhw
+  set N : P K := (computeNormal pt nt).smul sg with hN
+  by_cases hdet : eps < |sg * hw * (N.x * nt.x + N.y * nt.y)|
+  swap
+  · -- no intersection: the side point is left alone
+    refine ⟨0, le_refl _, ?_⟩
+    rw [clip_fallback eps a N nt (sg * hw) (ml * hw) (not_lt.mp hdet)]
+    apply P.ext' <;> simp only [geom] <;> ring
+  have hhw0 : 0 < hw := by
+    rcases eq_or_lt_of_le hhw with h | h
+    · exfalso
+      rw [← h] at hdet
+      simp only [mul_zero, zero_mul, abs_zero] at hdet
+      exact absurd hdet (not_lt.mpr heps)
+    · exact h
   have hsg2 : sg * sg = 1 := by rcases hsg with ⟨h, _⟩ | ⟨h, _⟩ <;> rw [h] <;> norm_num
   have hsgt : sg * tau < 0 := by
     rcases hsg with ⟨h, hc⟩ | ⟨h, hc⟩
@@ -349,7 +378,6 @@ theorem clip_behind (hs0 : ∀ x : K, 0 ≤ x → 0 ≤ Transc.sqrt x)
     have : sg * (sg * hw) = 0 := by rw [h]; ring
     have e : sg * (sg * hw) = hw := by linear_combination hw * hsg2
     rw [e] at this; linarith
-  set N : P K := (computeNormal pt nt).smul sg with hN
   have hNx : N.x = (-nt.y + tau * nt.x) * sg := by rw [hN, hn]; rfl
   have hNy : N.y = (nt.x + tau * nt.y) * sg := by rw [hN, hn]; rfl
   have hNsq : N.sqLen = 1 + tau * tau := by
@@ -364,17 +392,6 @@ theorem clip_behind (hs0 : ∀ x : K, 0 ≤ x → 0 ≤ Transc.sqrt x)
     · exact h
   have hrho : N.x * nt.x + N.y * nt.y = sg * tau := by
     rw [hNx, hNy]; linear_combination (sg * tau) * hunit
-  have habs : 1 ≤ |tau| := by
-    by_contra hlt
-    have hlt' := not_le.mp hlt
-    have := abs_mul_abs_self tau
-    have h0 := abs_nonneg tau
-    nlinarith
-  have hdet : eps < |sg * hw * (N.x * nt.x + N.y * nt.y)| := by
-    rw [hrho]
-    have e : sg * hw * (sg * tau) = hw * tau := by linear_combination (hw * tau) * hsg2
-    rw [e, abs_mul, abs_of_pos hhw0]
-    nlinarith
   obtain ⟨lam, h1, h2⟩ := clip_core eps heps a N nt (sg * hw) (ml * hw) hunit hm hL0 hL hdet
   refine ⟨lam, ?_, h1⟩
   rw [hrho] at h2
@@ -411,14 +428,14 @@ theorem computeNormal_zero_left (v : P K) : (computeNormal (⟨0, 0⟩ : P K) v)
   · exact absurd (h0 _) h2
 
 /-- the hypotheses under which (R1) holds with `LineJoin::MiterClip` and a fixed width: the laws of
-`sqrt`, the exact line intersection with lyon's determinant guard `eps`, a half width above that
-guard, `miter_limit ≥ 1`, a positive merge threshold -/
+`sqrt`, the exact line intersection with lyon's determinant guard `eps`, a non-negative line width,
+`miter_limit ≥ 1`, a positive merge threshold -/
 structure ClipHyp (e : Env K) (eps : K) : Prop where
   sqrt_nonneg : ∀ x : K, 0 ≤ x → 0 ≤ Transc.sqrt x
   sqrt_sq : ∀ x : K, 0 ≤ x → Transc.sqrt x * Transc.sqrt x = x
   ix_eq : e.ix = lineIntersection eps
   eps_nonneg : 0 ≤ eps
-  width : 2 * eps < e.o.lineWidth
+  width : 0 ≤ e.o.lineWidth
   limit : 1 ≤ e.o.miterLimit
   thr_pos : 0 < e.thr
 
@@ -446,7 +463,7 @@ theorem joinFw_field {e : Env K} {eps : K} (h : ClipHyp e eps) (prev join next :
   unfold LK
   rw [(joinSidesFw_upd e.ix prev join next e.o.miterLimit join.halfWidth).pos]
   have hhalf : (half : K) = 1 / 2 := sc_half
-  have hw_eps : eps < join.halfWidth := by rw [hhw, hhalf]; linarith [h.width]
+  have hw_eps : 0 ≤ join.halfWidth := by rw [hhw, hhalf]; linarith [h.width]
   rcases joinSidesFw_nexts e.ix prev join next e.o.miterLimit join.halfWidth with ⟨h1, h2⟩ | ⟨hu, hlj, hcase⟩
   · rw [h1, h2]
     apply slink_of_sym _ _ _ _ _ ?_ hfar
